@@ -311,7 +311,9 @@ class C05(Property):
             'each call; every pair of faults on a sub-family, thorough: on all), followed by an immediate fault-free retry '
             '(fresh saver, or the same AtomicSaver instance used twice). '
             'Small adversarial families come first (file_perms=0, block behaviours x exception kinds, exception classes at every '
-            'call, fault pairs, buffering, instance reuse, special permission bits), then the full enumeration. '
+            'call, fault pairs, buffering, instance reuse, special permission bits, the fcntl calls of set_cloexec as fault sites), '
+            'then the full enumeration. Fault positions are the calls the CURRENT code makes, under whatever name (os.rename / os.replace, '
+            'os.chmod / os.fchmod, os.unlink / os.remove, os.open+fdopen / open). '
             'Non-trivial = the save did not complete (some call failed, the body raised, or it was refused); '
             'distinct = distinct (configuration, initial state, body, plan).')
     ASSUMPTIONS = ['faults are injected by replacing boltons.fileutils.os and wrapping the part file object: an injected '
@@ -320,6 +322,9 @@ class C05(Property):
                    '(ValueError, MemoryError, RuntimeError, an OSError without errno, ...); a BaseException that is not an '
                    'Exception is only used as the way the with-block ends',
                    'single process, no other writer in the scratch directory except the scripted "destination appears" action',
+                   'the recorded calls are classified by their effect on the destination / part file names by fsspy.Spy._event and '
+                   'c05.Spy5 (trusted Python); that no file-system call of the saver escapes the recorder is a proof obligation '
+                   'regenerated from the source (C05.source_calls_are_recorded)',
                    'the scratch directory is made on a memory-backed file system (/dev/shm) when one passes a probe '
                    '(hard links, rename, permission bits), else in the default temporary directory',
                    'POSIX branch of atomic_rename/replace (os.name != "nt")']
